@@ -344,6 +344,7 @@ class Real(Part):
             with Watchdog(150) as wd:
                 res = convo.run_a(gw, f"c08-{ctx.shard}-{next(_pid)}", program, inproc.CONVO_SRC)
             if wd.fired:
+                ctx.count("hangs")
                 raise Violation("real.hang", f"{transport}: program did not finish within 150 s (normal: < 2 s)", site=transport)
             self._judge(res, expects, transport, gw)
         except Violation:
